@@ -60,6 +60,7 @@ class Runner:
         opts = dict(always_connect=cfg['alwaysConnect'], async_handlers=cfg['asyncHandlers'],
                     namespaces=('*' if cfg['served'] == '*' else list(cfg['served'])))
         opts.update(server_opts or {})
+        self.msgpack = opts.get('serializer') == 'msgpack'
         self.w = ServerWorld(mode, manager=manager, **opts)
         self.sio = self.w.sio
         self.names = SidNames()
@@ -299,6 +300,15 @@ class Runner:
                 continue
             sends[tid] = [f if isinstance(f, str) else (bytes(f) if isinstance(f, (bytes, bytearray)) else repr(f))
                           for f in frames]
+            if self.msgpack:
+                import msgpack
+                conv = []
+                for f in sends[tid]:
+                    try:
+                        conv.append({'mp': msgpack.loads(f)} if isinstance(f, bytes) else f)
+                    except Exception:   # noqa
+                        conv.append(f)
+                sends[tid] = conv
         # name new sids by first appearance: handler arguments first, then frames
         def walk(v):
             if isinstance(v, str):
@@ -319,8 +329,11 @@ class Runner:
                     for g in self.generated:
                         if g not in self.names.fwd and g in f:
                             self.names.name(g)
+                elif isinstance(f, dict):
+                    walk(f)
         for tid in sends:
-            sends[tid] = [self.names.rename_text(f) if isinstance(f, str) else f for f in sends[tid]]
+            sends[tid] = [self.names.rename_text(f) if isinstance(f, str) else
+                          (self._canon(f) if isinstance(f, dict) else f) for f in sends[tid]]
         obs = {'sends': sends, 'invokes': [], 'callbacks': [], 'result': None, 'exc': None,
                'raised': bool(contained), 'handler_raised': 0}
         for r in self.records:
